@@ -414,6 +414,14 @@ func graphs(quick bool) []trav.GraphSpec {
 	for _, t := range trav.GraphTrees(3, trav.GraphLeaves(true)[1:]) {
 		out = append(out, trav.GraphSpec{Tree: t})
 	}
+	// records in a list: the same selector step meets several nodes in one walk
+	rec := func(k int64) ref.Val {
+		return ref.Map(ref.E("a", ref.Int(k)), ref.E("b", ref.Int(k+1)), ref.E("c", ref.Int(k+2)))
+	}
+	recs := ref.List(rec(1), rec(4), rec(7))
+	tups := ref.List(ref.List(ref.Int(1), ref.Int(2), ref.Int(3)), ref.List(ref.Int(4), ref.Int(5), ref.Int(6)))
+	out = append(out, trav.GraphSpec{Tree: recs}, trav.GraphSpec{Tree: recs, Cuts: []int{1, 5, 9}}, trav.GraphSpec{Tree: recs, Cuts: []int{5}},
+		trav.GraphSpec{Tree: tups}, trav.GraphSpec{Tree: tups, Cuts: []int{1, 5}})
 	return out
 }
 
